@@ -29,7 +29,8 @@ LEVEL = "fault_enumeration"
 TIMEOUT = {"quick": 1500, "thorough": 7200}
 RULE = (
     "programs from vlib.gen.Gen (fused and unfused, multi-output ops, multi-stage rechunks, all-zero data so that "
-    "'present' and 'computed' differ, structured intermediates) with <= 40 tasks; crash points enumerated: every k in "
+    "'present' and 'computed' differ, structured intermediates) with <= 40 tasks, 40% of them saving the requested arrays (and sometimes an intermediate) "
+    "to user paths with lazy store/to_zarr; crash points enumerated: every k in "
     "[0, total tasks] at task granularity and every w in [1, total data-chunk writes] at chunk-write granularity "
     "(sampled above 30 points per kind); resumed run on single-threaded / threads / processes. An evaluation = one "
     "(program, crash point, resume executor); non-trivial = the crash left a strict, non-empty subset of the data and "
@@ -167,7 +168,7 @@ def judge_resume(label, crash_info, ops, S0, rec_events, trace, exc, entries, go
     return viols
 
 
-def run_program(recipe, optimize, workdir, rng, res, maxpoints, only=None):
+def run_program(recipe, optimize, workdir, rng, res, maxpoints, only=None, store_mode=None):
     import cubed
 
     storetrace.install()
@@ -178,11 +179,23 @@ def run_program(recipe, optimize, workdir, rng, res, maxpoints, only=None):
     try:
         vals = gen.cu_build(recipe, env)
         outs = [vals[i] for i in recipe["outputs"]]
+        if store_mode:
+            # requested arrays are saved to user paths (lazy store / to_zarr); optionally an intermediate too
+            tdir = os.path.join(workdir, "cubed-targets")
+            srcs = list(outs)
+            mid = store_mode.get("mid")
+            if mid is not None and mid not in recipe["outputs"] and hasattr(vals.get(mid), "zarray_maybe_lazy"):
+                srcs.append(vals[mid])
+            paths = [os.path.join(tdir, f"t{k}.zarr") for k in range(len(srcs))]
+            if store_mode["api"] == "to_zarr":
+                outs = [cubed.to_zarr(a, pth, compute=False) for a, pth in zip(srcs, paths)]
+            else:
+                outs = list(cubed.store(srcs, paths, compute=False))
         fp = cubed.plan(*outs, optimize_graph=optimize)
     except Exception:
         res["counters"]["declined"] += 1
         return viols
-    if fp.num_tasks > 40 or fp.num_tasks < 3:
+    if fp.num_tasks > (60 if store_mode else 40) or fp.num_tasks < 3:
         res["counters"]["skipped_size"] += 1
         return viols
     ops = plan_ops(fp)
@@ -200,7 +213,9 @@ def run_program(recipe, optimize, workdir, rng, res, maxpoints, only=None):
     order = list(ex0.executed)
     total = len(order)
     res["counters"]["programs"] += 1
-    facts = {"ops": gen.recipe_ops(recipe), "optimize": optimize}
+    facts = {"ops": gen.recipe_ops(recipe), "optimize": optimize, "store_mode": store_mode}
+    if store_mode:
+        res["counters"]["programs_saving_to_user_paths"] += 1
     points = [("task", k) for k in range(total + 1)]
     wpoints = [("write", w) for w in range(1, nsets + 1)]
     if len(points) > maxpoints:
@@ -262,7 +277,7 @@ def run_program(recipe, optimize, workdir, rng, res, maxpoints, only=None):
         v = judge_resume(label, {"complete_ops": complete}, ops, S0, recd.events, trace, exc, wex.entries, got, clean, workdir, res,
                          dict(facts, resume_executor=exname))
         for x in v:
-            x["case"] = {"recipe": recipe, "optimize": optimize, "point": [kind, k], "resume_executor": exname}
+            x["case"] = {"recipe": recipe, "optimize": optimize, "point": [kind, k], "resume_executor": exname, "store_mode": store_mode}
         viols.extend(v)
     return viols
 
@@ -338,7 +353,7 @@ def real_crash(recipe, optimize, workdir, rng, res):
     return []
 
 
-EXTRA = ("metadata_writes_before_refusal", "programs", "crash_points", "task_granularity", "write_granularity", "refused_up_front", "resumed_to_completion",
+EXTRA = ("programs_saving_to_user_paths", "metadata_writes_before_refusal", "programs", "crash_points", "task_granularity", "write_granularity", "refused_up_front", "resumed_to_completion",
          "existing_chunks_tracked", "ops_skipped_on_resume", "declined", "skipped_size", "real_process_crashes")
 GEN_KW = {"allow_zero": False, "weights": {"rechunk": 10, "multi": 6, "reduce": 10, "binary": 12, "create": 6, "cum": 4, "linalg": 4}}
 
@@ -361,7 +376,11 @@ def run_shard(spec, workdir):
         optimize = rng.random() < 0.5
         wd = os.path.join(workdir, f"p{tries}")
         before = res["counters"]["programs"]
-        viols = run_program(recipe, optimize, wd, rng, res, spec["maxpoints"])
+        store_mode = None
+        if rng.random() < 0.4:
+            cands = [i for i, n in enumerate(recipe["nodes"]) if n["op"] not in ("leaf", "pick", "create")]
+            store_mode = {"api": rng.choice(["store", "to_zarr"]), "mid": rng.choice(cands) if cands and rng.random() < 0.5 else None}
+        viols = run_program(recipe, optimize, wd, rng, res, spec["maxpoints"], store_mode=store_mode)
         shutil.rmtree(wd, ignore_errors=True)
         if res["counters"]["programs"] > before:
             done += 1
@@ -400,7 +419,7 @@ def replay(rep, workdir):
         viols = real_crash(case["recipe"], case["optimize"], os.path.join(workdir, "real"), R(), res)
     else:
         viols = run_program(case["recipe"], case["optimize"], os.path.join(workdir, "replay"), random.Random(0), res, 1000,
-                            only={"point": case["point"], "resume_executor": case["resume_executor"]})
+                            only={"point": case["point"], "resume_executor": case["resume_executor"]}, store_mode=case.get("store_mode"))
     for v in viols:
         v.setdefault("property", PROPERTY)
         v.setdefault("case", case)
@@ -416,6 +435,7 @@ def finalize(tier, merged):
             ("crash points followed by a resumed run", c.get("crash_points", 0), 1200 if tier == "quick" else 14000),
             ("of which inside a task (chunk-write granularity)", c.get("write_granularity", 0), 400 if tier == "quick" else 5000),
             ("resumed runs that completed and were compared", c.get("resumed_to_completion", 0), 800 if tier == "quick" else 9000),
+            ("programs whose requested arrays are saved to user paths with store/to_zarr", c.get("programs_saving_to_user_paths", 0), 15 if tier == "quick" else 150),
             ("real process crashes (os._exit) resumed from a fresh process", c.get("real_process_crashes", 0), 6 if tier == "quick" else 60),
         ],
         "assumptions": ASSUMPTIONS,
